@@ -147,6 +147,11 @@ def classify(cls, reader, writer, data: bytes, kind: str, chunks, budget, ok_exc
     global LAST_SITE
     LAST_SITE = None
     src = _open_source(kind, data, budget, chunks)
+    if in_thread:
+        try:
+            core.call_in_thread(lambda: None)
+        except core.ThreadUnavailable:
+            in_thread = False
     try:
         # (now and then the decode runs in a freshly started thread, not the one that imported kio)
         val = core.call_in_thread(reader, src) if in_thread else reader(src)
@@ -217,6 +222,7 @@ def run_task(task: dict) -> dict:
         reader, writer = entity_reader(cls), entity_writer(cls)
         nf = universe.n_fields_reachable(cls)
         for k_inst in range(task["instances"] + 1):
+            core.gc_tick()
             run_seed = core.derive_seed(PROP, task["seed"], qn, k_inst)
             rng = core.random.Random(run_seed)
             runs += 1
